@@ -451,3 +451,7 @@ package types
 //@ trusted func ValidatorSetFromProto(vp *kproto.ValidatorSet) (r *ValidatorSet, err error)
 //@   ensures err == nil ==> fresh(r) && len(r.Validators) == len(vp.Validators) && r.totalVotingPower == vp.TotalVotingPower
 //@   ensures err == nil ==> forall i int :: 0 <= i && i < len(r.Validators) ==> r.Validators[i] != nil && r.Validators[i].VotingPower == vp.Validators[i].VotingPower && r.Validators[i].ProposerPriority == vp.Validators[i].ProposerPriority
+
+// Block hash accessors: they may fill the block's hash cache; nothing else that is modelled changes.
+//@ trusted func (b *Block) Hash() (r common.Hash)
+//@ trusted func (b *Block) HashesTo(hash common.Hash) (r bool)
